@@ -3,6 +3,8 @@ import VhostModel.Drv.Srv
 import VhostModel.Drv.Fe
 import VhostModel.Drv.Send
 import VhostModel.Drv.Locks
+import VhostModel.Drv.Log
+import VhostModel.Drv.Route
 /-! Model driver: one scenario per input line, one prediction per output line. -/
 
 def dispatch (line : String) : String :=
@@ -13,6 +15,8 @@ def dispatch (line : String) : String :=
   | "fe" :: _ => Drv.Fe.run toks
   | "send" :: _ => Drv.Send.run toks
   | "locks" :: _ => Drv.Locks.run toks
+  | "route" :: _ => Drv.Route.run toks
+  | "log" :: _ => Drv.Log.run toks
   | _ => "bad-family"
 
 partial def loop (h : IO.FS.Stream) (out : IO.FS.Stream) : IO Unit := do
